@@ -18,7 +18,7 @@ the multiset of destructed values, the number of token-less destructs, the live 
 import os, json, re
 import vlib
 
-SEQ, MAP = 'AL', 'TR'
+SEQ, MAP = 'ALEF', 'TRGH'      # E F G H: same containers over the other probe element types
 
 
 def gen_case(rng, maxops):
@@ -31,7 +31,7 @@ def gen_case(rng, maxops):
         return rng.randrange(0, 4) if small else vals()
 
     def new(kind=None):
-        k = kind or rng.choice('AALLTTRRB')
+        k = kind or rng.choice('AELFTGRHB')
         if k in SEQ:
             n = rng.choice([0, 0, 1, 2, 3, 6, 10])
             ops.append(k + ','.join(str(v()) for _ in range(n)))
@@ -44,7 +44,7 @@ def gen_case(rng, maxops):
             ops.append('B%d' % v()); lens.append(1)
         kinds.append(k)
 
-    new(rng.choice('ALTR'))
+    new(rng.choice('ALTREFGH'))
     for _ in range(rng.randrange(1, maxops)):
         live = [i for i, k in enumerate(kinds) if k]
         if not live or (rng.random() < .08 and len(kinds) < 12):
@@ -73,9 +73,9 @@ def gen_case(rng, maxops):
                 m = rng.choice([0, 0, 1, max(0, (n or 0) - 1), (n or 0) + 3, (n or 0) // 2])
                 ops.append('z%d,%d' % (c, m))
                 if n is not None:
-                    lens[c] = m if (m < n or k == 'L') else n
+                    lens[c] = m if (m < n or k in 'LF') else n
                     if m == 0: lens[c] = 0
-            elif r < .82 and k == 'A': ops.append('q%d' % c)
+            elif r < .82 and k in 'AE': ops.append('q%d' % c)
             elif r < .88:
                 ds = [d for d in live if d != c and kinds[d] in SEQ]
                 if ds:
@@ -181,6 +181,10 @@ CORPUS = [
     'A1,1,1,1,1,1,1,1,1,1,1,1 x0,0 x0,0 x0,0 x0,0 x0,0 x0,0 x0,0 x0,0 x0,0 x0,0 x0,0 x0,0',
     'R5:5,3:3,8:8,1:1,4:4,7:7,9:9,2:2,6:6 n0,5 n0,3 n0,8 y0 n0,1 n1,9 d0 d1',   # two-children deletes (predecessor copy)
     'T0:0,5:5,10:10,15:15,20:20 n0,0 n0,10 m0,25,1 m0,5,9 y0 z0,0 d1 d0',       # collisions mod 5, backward shift, rehash
+    'H5:5,3:3,8:8,1:1,4:4,7:7,9:9,2:2,6:6 n0,5 n0,3 n0,8 y0 n0,1 n1,9 d0 d1',   # same, key type wider than value type
+    'G0:0,5:5,10:10,15:15,20:20 n0,0 n0,10 m0,25,1 m0,5,9 y0 a0,1 z0,0 d1 d0',
+    'E1,2,3,4,5,6,7 x0,0 i0,3,9 q0 F1,2 a1,0 c0,1 z0,2 y1 d0 d1 d2',            # wide elements: memmove / realloc / sort swaps
+    'R1:1,2:2,3:3 H9:9 a1,0 a0,1 m0,2,5 n1,1 d0 d1',                            # assign between maps of different element types
 ]
 
 
